@@ -234,7 +234,7 @@ def shrink_rejf(c, fails):
 
 # ================================================================ djs_reject WITH maxrej: observed, never judged
 def observe_maxrej(ctx):
-    """maxrej/groupdim/groupsize/groupbadpix are outside the property statement and outside the model.  This stream only
+    """maxrej/groupdim/groupsize/groupbadpix are outside the property statement (modelled since the third round: c17_ext3 `rejm`).  This stream only
     records what the repository does with them (counters in the evidence): is the result the one of the same call without
     maxrej ('ignored'), different ('applied'), or an exception.  No disagreement and no violation can come from here."""
     rng = ctx.rng
